@@ -251,6 +251,69 @@ def main(rec):
                 if ln.strip() not in outlines.get(lang, ()):
                     rec.violation("user-splicer-line-altered-by-layout-directives:%s" % lang,
                                   "%s: the line %r of a declaration-level %s splicer does not appear unchanged in the output" % (sp["name"], ln, lang), sp)
+    # (a2b) statement templates supplied by the user (fstatements, docs/fortran.rst "Statements"): the documented break hints
+    # \t (may break), \f (must break) and a leading \r (double indent) work there as in Shroud's own templates, whether the
+    # template is written as a YAML list of lines or as one string with newlines
+    def fst_lib(form, length):
+        stm = {"sum3": {"call": ["{F_result} = {F_C_call}(\f{F_arg_c_call})"]},
+               "clamp3": {"call": ["{F_result} = {F_C_call}({F_arg_c_call})"],
+                          "post_call": ["if ({F_result} > 100) then+", "{F_result} = min(a + b + c,\f 100,\t 1000)", "-endif"]},
+               "wide3": {"call": ["\r{F_result} = {F_C_call}(\t" + "{F_arg_c_call})"],
+                         "post_call": ["{F_result} = {F_result} +\t 0 +\t 0 +\f 0 +\t 0"]}}
+        decls = []
+        for fn, st in stm.items():
+            if form == "string":
+                st = {k: "\n".join(v) + ("\n" if fn == "clamp3" else "") for k, v in st.items()}
+            decls.append({"decl": "int %s(int a, int b, int c)" % fn, "fstatements": {"f": st}})
+        return {"library": "fst", "language": "c", "cxx_header": "fst.h",
+                "options": {"wrap_python": False, "wrap_lua": False, "F_force_wrapper": True, "F_line_length": length},
+                "declarations": decls}
+    want_stmts = ["SHT_rv=c_sum3(a,b,c)", "SHT_rv=c_clamp3(a,b,c)", "SHT_rv=min(a+b+c,100,1000)", "SHT_rv=c_wide3(a,b,c)", "SHT_rv=SHT_rv+0+0+0+0"]
+    fspecs = []
+    for length in (72, 40):
+        for form in ("list", "string"):
+            sp = gen.spec_for(fst_lib(form, length), "fstatements-%s-%d" % (form, length))
+            sp["monitors"] = ["lines"]
+            sp["form"], sp["length"] = form, length
+            fspecs.append(sp)
+    fres = pool.run_cases("vf.shroudrun", fspecs, timeout=300)
+    byform = {}
+    for sp, r in zip(fspecs, fres):
+        if workloads.bad_run(rec, sp, r):
+            continue
+        ftext = "".join(t for rel, t in sorted(r["outputs"].items()) if rel.endswith(".f"))
+        byform[(sp["form"], sp["length"])] = ftext
+        # the compiler's reading of the file: free-form continuation lines joined, blanks dropped
+        joined, cur = [], ""
+        for ln in ftext.split("\n"):
+            t = ln.strip()
+            if t.startswith("!"):
+                continue
+            if t.startswith("&"):
+                t = t[1:]
+            if t.endswith("&"):
+                cur += t[:-1]
+                continue
+            joined.append((cur + t).replace(" ", ""))
+            cur = ""
+        for w in want_stmts:
+            rec.count("user_statement_templates_checked")
+            if w not in joined:
+                rec.violation("user-statement-template-not-one-statement:%s-form" % sp["form"],
+                              "%s: the statement %r (from an fstatements template with break hints) is not a statement of the "
+                              "generated module once continuation lines are joined" % (sp["name"], w), sp)
+        for ln in ftext.split("\n"):
+            if "\t" in ln or "\f" in ln or "\r" in ln:
+                rec.violation("layout-directive-character-in-output:user-statement-template:%s-form" % sp["form"],
+                              "%s: %r" % (sp["name"], ln[:200]), sp)
+                break
+        for mech, detail in r["events"]["line_violations"]:
+            rec.violation(mech, detail, sp)
+    for length in (72, 40):
+        if ("list", length) in byform and ("string", length) in byform and byform[("list", length)] != byform[("string", length)]:
+            rec.violation("user-statement-template:string-form-differs-from-list-form",
+                          "F_line_length=%d: the Fortran module differs between the two documented spellings of the same fstatements" % length,
+                          fspecs[0])
     # (a3) 132 columns with identifiers of ordinary length: every single-row library again with its parameters renamed to
     # 24 / 31 / 40-character names (the scan above only sees the short names of the tables)
     lspecs = []
